@@ -12,10 +12,10 @@ def build(ck):
 
 
 RULE = ("all histories of <= D ops over {actor x in A0..A3 + the master} x {load_object / clone_object / call_other-load of a "
-        "file of creator Root|BB|w1|w2, seteuid(0 | own uid | another uid | Root), export_uid(y) for every other actor incl. "
-        "the master} under each of 14 master policies (valid_seteuid refuse/approve/own-uid-only x creator_file by-directory/"
+        "file of creator Root|BB|w1|w2, seteuid(0 | own uid | another uid | Root | own uid with the letter case flipped | \"root\" | a one-letter prefix of the own uid), export_uid(y) for every other actor incl. "
+        "the master} under each of 15 master policies (valid_seteuid refuse/approve/own-uid-only x creator_file by-directory/"
         "returns 0/returns a non-string/always the backbone uid; + valid_seteuid raises an error for every request / is own-uid-only "
-        "but raises for \"Root\") and with a master that does not define valid_seteuid() at all, starting from two driver-loaded objects (uid w1 and w2, euid 0); "
+        "but raises for \"Root\") + creator_file always \"root\") and with masters that do not define valid_seteuid() / get_bb_uid() / creator_file() / get_root_uid() at all, starting from two driver-loaded objects (uid w1 and w2, euid 0); "
         "objects created by an op become actors (<= 4) or passive world objects; on the real lib/efuns/uids.c + "
         "give_uid_to_object/load_object/clone_object; after every op uid/euid of every object (C fields and getuid()/geteuid() "
         "efuns), the object count, the op's return value and the exact sequence of valid_seteuid/creator_file applies with "
@@ -38,15 +38,21 @@ def run(ck):
     # policies are ordered: creator_file by-directory x valid_seteuid {own, approve, refuse} come first (--ncfg=3)
     if ck.tier == "quick":
         ck.explore(P, ["--depth=4", "--cfg=0", "--kinds=2"], "d4-by-directory-own", budget=0, deadline_s=110, jobs=JOBS)
-        ck.explore(P, ["--depth=3", "--ncfg=14", "--kinds=2"], "d3-all-policies", budget=0, deadline_s=90, jobs=JOBS)
-        ck.explore(P, ["--depth=3", "--cfg=0", "--master-nv=1", "--kinds=2"], "d3-master-without-valid_seteuid", budget=0, deadline_s=20, jobs=JOBS)
-        ck.explore(A, ["--depth=2", "--ncfg=14", "--kinds=3"], "d2-all-policies-asan", budget=0, deadline_s=35, jobs=JOBS)
+        # (the "creator_file returns a non-string" policies 9..11 behave like "returns 0": thorough tier only)
+        ck.explore(P, ["--depth=3", "--cfgs=0,1,2,3,4,5,6,7,8,12,13,14", "--kinds=2"], "d3-12-policies", budget=0, deadline_s=100, jobs=JOBS)
+        ck.explore(P, ["--depth=3", "--cfg=0", "--master-nv=1", "--kinds=2"], "d3-master-without-valid_seteuid", budget=0, deadline_s=15, jobs=JOBS)
+        for k, what in ((2, "get_bb_uid"), (3, "creator_file"), (4, "get_root_uid")):      # --cfg=1: valid_seteuid approves
+            ck.explore(P, ["--depth=2", "--cfg=1", "--master-nv=%d" % k, "--kinds=2"], "d2-master-without-" + what, budget=0, deadline_s=10, jobs=JOBS)
+        ck.explore(A, ["--depth=2", "--cfgs=0,1,2,4,12,13,14", "--kinds=2"], "d2-7-policies-asan", budget=0, deadline_s=40, jobs=JOBS)
     else:
-        # deadlines are sized for a heavily loaded machine (sum 40 min)
-        ck.explore(P, ["--depth=5", "--cfg=0", "--kinds=2"], "d5-by-directory-own", budget=0, deadline_s=800, jobs=JOBS)
-        ck.explore(P, ["--depth=4", "--ncfg=14", "--kinds=3"], "d4-all-policies", budget=0, deadline_s=1200, jobs=JOBS)
+        # deadlines are sized for a heavily loaded machine (sum ~40 min); ~12 min on an idle 16-core machine
+        ck.explore(P, ["--depth=5", "--cfg=0", "--kinds=2"], "d5-by-directory-own", budget=0, deadline_s=650, jobs=JOBS)
+        ck.explore(P, ["--depth=4", "--cfgs=0,1,2,3,4,5,12,13,14", "--kinds=2"], "d4-9-policies", budget=0, deadline_s=1000, jobs=JOBS)
+        ck.explore(P, ["--depth=3", "--ncfg=15", "--kinds=3"], "d3-all-policies", budget=0, deadline_s=250, jobs=JOBS)
         ck.explore(P, ["--depth=4", "--cfg=0", "--master-nv=1", "--kinds=3"], "d4-master-without-valid_seteuid", budget=0, deadline_s=100, jobs=JOBS)
-        ck.explore(A, ["--depth=3", "--ncfg=14", "--kinds=3"], "d3-all-policies-asan", budget=0, deadline_s=300, jobs=JOBS)
+        for k, what in ((2, "get_bb_uid"), (3, "creator_file"), (4, "get_root_uid")):
+            ck.explore(P, ["--depth=3", "--cfg=1", "--master-nv=%d" % k, "--kinds=3"], "d3-master-without-" + what, budget=0, deadline_s=60, jobs=JOBS)
+        ck.explore(A, ["--depth=3", "--cfgs=0,1,2,4,12,13,14", "--kinds=2"], "d3-7-policies-asan", budget=0, deadline_s=250, jobs=JOBS)
     ck.finish(vlib.mc_coverage(ck.parts, RULE), assumptions=ASSUME)
 
 
